@@ -79,7 +79,7 @@ def _p(*a, **k):
 
 
 _p('C01', 'exploration',
-   [Part('decl', {}, quick=36000, thorough=1500000)],
+   [Part('decl', {}, quick=36000, thorough=900000)],
    rule='one case = one seeded declaration history (4-25 ops + gc/drop/perm faults) over a generated interface DAG, '
         'class DAG and instances (one world in five with classes and instances that are false in a boolean context; callable '
         'instances declared as factories), checked against DeclModel bounds after every op; three single questions put right before each '
@@ -180,7 +180,7 @@ _p('C04', 'exploration',
    design_ref='DESIGN.md 3/C04', expected_probes=['probe', 'ambiguous-provided', 'overwrite'])
 
 _p('C05', 'exploration',
-   [Part('registry', {'props': ['C05'], 'shape': 'dynamic'}, configs=REG_CFG, quick=7000, thorough=400000, name='registry/C05', timeout=40.0)],
+   [Part('registry', {'props': ['C05'], 'shape': 'dynamic'}, configs=REG_CFG, quick=7000, thorough=200000, name='registry/C05', timeout=40.0)],
    rule='one case = one seeded history (8-36 ops) mixing every mutation kind (register/unregister/subscribe/unsubscribe on the registry or a base, '
         'rebuild, registry __bases__, __bases__ of required interfaces, class and instance declarations) with lookups through all nine entry points '
         'over a small key pool, plus gc / permute / drop-registry faults; at probe points every key is asked on the warm registries and on a cold '
@@ -197,7 +197,7 @@ _p('C05', 'exploration',
                                                   'mut-class-declaration', 'mut-instance-declaration', 'mut-rebuild'])
 
 _p('C06', 'exploration',
-   [Part('registry', {'props': ['C06'], 'shape': 'chain'}, configs=REG_CFG, quick=9000, thorough=400000, name='registry/C06', timeout=40.0)],
+   [Part('registry', {'props': ['C06'], 'shape': 'chain'}, configs=REG_CFG, quick=9000, thorough=250000, name='registry/C06', timeout=40.0)],
    rule='one case = one seeded history over a registry DAG of 3-5 nodes of either flavour (and verifying over invalidating): __bases__ assignment at '
         'any level, registrations in any member, rebuild of any member, dropped registries, gc / permute faults; at probe points lookup, lookupAll '
         'and subscriptions from every key are compared with the model evaluated over the model\'s own C3 of the *current* registry DAG, warm and on a cold twin; '
@@ -210,7 +210,7 @@ _p('C06', 'exploration',
 
 _p('C07', 'exploration',
    [Part('registry', {'props': ['C07'], 'shape': 'subs'}, configs=REG_CFG, quick=12000, thorough=500000, name='registry/C07'),
-    Part('registry', {'props': ['C07'], 'shape': 'chain'}, configs=[(C, 2), (PY, 2)], quick=3000, thorough=150000, name='registry/C07/chains', timeout=40.0)],
+    Part('registry', {'props': ['C07'], 'shape': 'chain'}, configs=[(C, 2), (PY, 2)], quick=3000, thorough=80000, name='registry/C07/chains', timeout=40.0)],
    rule='one case = one seeded subscribe/unsubscribe history (duplicates, equal-but-distinct values, handlers, arity 0-3, registry chains); at probe '
         'points subscriptions() of every key is compared with the model list of live subscriptions as a multiset and for the specified part of the '
         'order (base registries first; less specific required keys first, component-wise for arity >= 2; identical keys in subscription order); '
@@ -243,9 +243,9 @@ _p('C09', 'exploration',
    technique='deterministic simulation: seeded bookkeeping histories vs model dict + rebuild/replay equivalence',
    design_ref='DESIGN.md 3/C09', expected_probes=['overwrite', 'identical-re-registration', 'register-None', 'last-entry-of-arity-removed', 'replay-into-empty'])
 
-PROPS['C05'].parts.append(Part('registry', {'props': ['C05'], 'shape': 'specdyn'}, configs=[(C, 2), (PY, 2)], quick=3000, thorough=200000,
+PROPS['C05'].parts.append(Part('registry', {'props': ['C05'], 'shape': 'specdyn'}, configs=[(C, 2), (PY, 2)], quick=3000, thorough=100000,
                                name='registry/C05/specs', timeout=40.0))
-PROPS['C05'].parts.append(Part('registry', {'props': ['C05'], 'shape': 'chain'}, configs=[(C, 2), (PY, 2)], quick=3000, thorough=200000,
+PROPS['C05'].parts.append(Part('registry', {'props': ['C05'], 'shape': 'chain'}, configs=[(C, 2), (PY, 2)], quick=3000, thorough=80000,
                                name='registry/C05/chains', timeout=40.0))
 
 
@@ -265,7 +265,7 @@ _p('C14', 'fault_enumeration',
    design_ref='DESIGN.md 3/C14')
 
 _p('C16', 'exploration',
-   [Part('components', {}, configs=[(C, 5), (PY, 4), (C_H1, 1), (PY_H7, 1)], quick=9000, thorough=400000, name='components', timeout=40.0)],
+   [Part('components', {}, configs=[(C, 5), (PY, 4), (C_H1, 1), (PY_H7, 1)], quick=9000, thorough=250000, name='components', timeout=40.0)],
    rule='one case = one seeded history (5-40 ops) of the eight register/unregister methods on 1-3 Components objects (with bases) using hashable, '
         'unhashable, equal-but-distinct and identical components, names, related provided interfaces, factory=, event=False, implicit forms, '
         're-initialisation, __bases__ changes, dropping the volatile cache, gc; after every op the four listings, return values and recorded '
@@ -344,11 +344,11 @@ _p('C10', 'translation_validation',
 
 _p('C11', 'fault_enumeration',
    [Part('race', {'part': 'reenter'}, configs=[(C, 1), (PY, 1)], kind='enum', name='race/reenter-product', timeout=180.0),
-    Part('race', {'part': 'threads'}, configs=[(C, 5), (PY, 3), (C_H1, 1)], quick=6400, thorough=600000, name='race/threads', timeout=60.0, batch=50),
+    Part('race', {'part': 'threads'}, configs=[(C, 5), (PY, 3), (C_H1, 1)], quick=6400, thorough=300000, name='race/threads', timeout=60.0, batch=50, thorough_s=600),
     Part('race', {'part': 'reenter', 'asan': True}, configs=[(C_ASAN, 1)], kind='enum', name='race/reenter-product/asan', timeout=300.0),
-    Part('race', {'part': 'threads', 'asan': True}, configs=[(C_ASAN, 1)], quick=800, thorough=120000, name='race/threads/asan', timeout=120.0, batch=25),
+    Part('race', {'part': 'threads', 'asan': True}, configs=[(C_ASAN, 1)], quick=800, thorough=40000, name='race/threads/asan', timeout=120.0, batch=25, thorough_s=300),
     Part('race', {'part': 'reenter', 'asan': True, 'stride': 6, 'block': 50}, configs=[(C_VALGRIND, 1)], kind='enum', name='race/reenter-product/memcheck', timeout=600.0),
-    Part('race', {'part': 'threads', 'asan': True}, configs=[(C_VALGRIND, 1)], quick=64, thorough=20000, name='race/threads/memcheck', timeout=300.0, batch=4)],
+    Part('race', {'part': 'threads', 'asan': True}, configs=[(C_VALGRIND, 1)], quick=64, thorough=2400, name='race/threads/memcheck', timeout=300.0, batch=4, thorough_s=300)],
    rule='Part A (enumerated completely): one case = one lookup through one of the nine entry points on a two-level registry chain of either '
         'flavour, with one callback point armed (lazy required iterable, __providedBy__ descriptor, overridden _uncached_* before/after delegating, '
         'a required specification with a Python-level subscribe, _generation as a property of the base registry, an overridden changed(), the '
